@@ -2,6 +2,7 @@ package main
 
 import (
 	"go/token"
+	"go/types"
 	"sort"
 	"strings"
 
@@ -52,6 +53,12 @@ func ruleListSize(c *Ctx, r *R) {
 							z[f] = true
 						}
 					}
+				}
+			})
+			// `*l = List[T]{}`: the whole struct is replaced by its zero value
+			instrs(fn, func(b *ssa.BasicBlock, i int, in ssa.Instruction) {
+				if st, ok := in.(*ssa.Store); ok && len(fn.Params) > 0 && st.Addr == ssa.Value(fn.Params[0]) && isZeroStruct(st.Val) {
+					z["size"], z["front"], z["back"] = true, true, true
 				}
 			})
 			r.ok(z["size"] && z["front"] && z["back"], key, fn.Pos(), "Clear must reset front, back and size together")
@@ -227,14 +234,33 @@ func ruleListNoop(c *Ctx, r *R) {
 			r.undecided("xlist.List."+n+"|missing", token.NoPos, "anchor not found")
 			continue
 		}
-		node, mark := fn.Params[1], fn.Params[2]
-		good := false
-		any := false
-		instrs(fn, func(b *ssa.BasicBlock, i int, in ssa.Instruction) {
-			// any store or remove call must be under node != mark
+		// typestate: 0 = nothing known, 1 = node != mark established on this path. The test may live in a helper that reports it
+		// through its boolean result (unlinkForMove); helper frames compare their own two node parameters.
+		isNodePtr := func(v ssa.Value) bool {
+			p, ok := v.(*ssa.Parameter)
+			return ok && isNamedTypeDeep(p.Type(), "container/xlist", "Node")
+		}
+		pkgN := fn.Pkg
+		pfn := &PF{N: 2, DeepVisit: true, InScope: func(f *ssa.Function) bool {
+			return rootFn(origin(f)).Pkg == pkgN && f.Blocks != nil && origin(f) != fn && fname(origin(f)) != "remove"
+		}}
+		pfn.Edge = func(f *ssa.Function, g guard, q int) (StateSet, bool) {
+			cf, ok := g.asCmp()
+			if !ok || !isNodePtr(cf.x) || !isNodePtr(cf.y) || cf.x == cf.y {
+				return 0, false
+			}
+			if cf.op == token.NEQ {
+				return ss(1), true
+			}
+			return 0, false
+		}
+		all, any := true, false
+		pfn.Visit = func(f *ssa.Function, in ssa.Instruction, before StateSet) {
 			isMut := false
-			if _, ok := in.(*ssa.Store); ok {
-				isMut = true
+			if st, ok := in.(*ssa.Store); ok {
+				if _, isLocal := st.Addr.(*ssa.Alloc); !isLocal {
+					isMut = true
+				}
 			}
 			if call, ok := in.(*ssa.Call); ok {
 				if cal := staticCallee(&call.Call); cal != nil && fname(cal) == "remove" {
@@ -245,43 +271,11 @@ func ruleListNoop(c *Ctx, r *R) {
 				return
 			}
 			any = true
-			ok2 := false
-			for _, g := range guardsOf(b) {
-				if cf, ok := g.asCmp(); ok && cf.op == token.NEQ && ((cf.x == ssa.Value(node) && cf.y == ssa.Value(mark)) || (cf.x == ssa.Value(mark) && cf.y == ssa.Value(node))) {
-					ok2 = true
-				}
-			}
-			if !ok2 {
-				good = false
-			} else if !any || good || true {
-				good = good || ok2
-			}
-		})
-		// recompute strictly: all mutating instructions guarded
-		all := true
-		instrs(fn, func(b *ssa.BasicBlock, i int, in ssa.Instruction) {
-			isMut := false
-			if _, ok := in.(*ssa.Store); ok {
-				isMut = true
-			}
-			if call, ok := in.(*ssa.Call); ok {
-				if cal := staticCallee(&call.Call); cal != nil && fname(cal) == "remove" {
-					isMut = true
-				}
-			}
-			if !isMut {
-				return
-			}
-			ok2 := false
-			for _, g := range guardsOf(b) {
-				if cf, ok := g.asCmp(); ok && cf.op == token.NEQ && ((cf.x == ssa.Value(node) && cf.y == ssa.Value(mark)) || (cf.x == ssa.Value(mark) && cf.y == ssa.Value(node))) {
-					ok2 = true
-				}
-			}
-			if !ok2 {
+			if before.has(0) {
 				all = false
 			}
-		})
+		}
+		pfn.Exits(fn, ss(0))
 		r.ok(all && any, "xlist.List."+n+"|noop-when-node-is-mark", fn.Pos(), "moving a node next to itself must be a no-op: every mutation must be under node != mark (remove(node) would otherwise unlink mark itself)")
 	}
 }
@@ -451,7 +445,6 @@ func ruleListUnlinkBothSides(c *Ctx, r *R) {
 		r.undecided("xlist.List.remove|missing", token.NoPos, "anchor not found")
 		return
 	}
-	l, node := "param:"+pname(fn.Params[0]), "param:"+pname(fn.Params[1])
 	// the places a store can write to: the address itself, or - `*l.forwardLink(node) = …` - each address the in-package helper
 	// can return (in the caller's terms)
 	alternatives := func(addr ssa.Value) []string {
@@ -466,12 +459,20 @@ func ruleListUnlinkBothSides(c *Ctx, r *R) {
 		}
 		return []string{addrProv(addr, provEnv{}).String()}
 	}
-	pf := &PF{N: 4} // bit0 = predecessor side repaired, bit1 = successor side repaired
+	pkgL := fn.Pkg
+	// helpers of the same shape (receiver, node) that remove is split into are followed (bypassForward / bypassBackward)
+	pf := &PF{N: 4, InScope: func(f *ssa.Function) bool {
+		sameT := func(a, b types.Type) bool {
+			return types.Identical(origType(derefType(a)), origType(derefType(b)))
+		}
+		return rootFn(origin(f)).Pkg == pkgL && f.Blocks != nil && origin(f) != fn && len(f.Params) == 2 && sameT(f.Params[0].Type(), fn.Params[0].Type()) && sameT(f.Params[1].Type(), fn.Params[1].Type())
+	}} // bit0 = predecessor side repaired, bit1 = successor side repaired
 	pf.Instr = func(f *ssa.Function, in ssa.Instruction, q int) (StateSet, bool) {
 		st, ok := in.(*ssa.Store)
 		if !ok {
 			return 0, false
 		}
+		l, node := "param:"+pname(f.Params[0]), "param:"+pname(f.Params[1])
 		alts := alternatives(st.Addr)
 		vp := valueProv(st.Val, provEnv{}).String()
 		allIn := func(set ...string) bool {
@@ -524,4 +525,36 @@ func touchesLinks(fn *ssa.Function) bool {
 		}
 	})
 	return res
+}
+
+// isZeroStruct: v is the zero value of a struct type: a zero constant, or the load of a fresh composite literal no field of
+// which was ever assigned.
+func isZeroStruct(v ssa.Value) bool {
+	if k, ok := v.(*ssa.Const); ok && k.Value == nil {
+		_, isSt := k.Type().Underlying().(*types.Struct)
+		return isSt
+	}
+	ld, ok := v.(*ssa.UnOp)
+	if !ok || ld.Op != token.MUL {
+		return false
+	}
+	al, ok := ld.X.(*ssa.Alloc)
+	if !ok {
+		return false
+	}
+	if _, isSt := al.Type().Underlying().(*types.Pointer).Elem().Underlying().(*types.Struct); !isSt {
+		return false
+	}
+	for _, ref := range refsOf(al) {
+		switch x := ref.(type) {
+		case *ssa.UnOp, *ssa.DebugRef:
+		case *ssa.Store:
+			if x.Addr == ssa.Value(al) {
+				return false
+			}
+		default:
+			return false // a field address (assignment) or an escape
+		}
+	}
+	return true
 }
